@@ -159,10 +159,10 @@ theorem done_at_most_once {α} (B : Nat) (ops : List (Op α)) :
 /-- **Done callback: only when** the source is flagged complete, no capture is pending (and the
 queue has just been drained), and it has not fired before; it then stays disabled. -/
 theorem done_only_when {α} (st : State α) (op : Op α) (h : (step st op).2.fired = true) :
-    op.complete = true ∧ (step st op).1.pending = [] ∧ st.doneFired = false ∧
-      (step st op).1.doneFired = true := by
-  obtain ⟨h1, h2, h3, h4⟩ := (step_done st op).1 h
-  exact ⟨h3, h4, h1, h2⟩
+    op.complete = true ∧ (step st op).1.pending = [] ∧ (step st op).1.queue = [] ∧
+      st.doneFired = false ∧ (step st op).1.doneFired = true := by
+  obtain ⟨h1, h2, h3, h4, h5⟩ := (step_done st op).1 h
+  exact ⟨h3, h4, h5, h1, h2⟩
 
 /-- **Done callback fires** as soon as, in a valid history, the source is complete and nothing is
 pending after a call (unless it fired earlier). -/
